@@ -11,13 +11,14 @@ DISTINCT_RULE = (
     "set of type+side letters, set of statuses) per selection position"
 )
 RULES = ["selection-exposure", "market-exposure", "exclusion", "new-order"]
-MINIMA = {"quick": {"rule_selection-exposure": 8000, "rule_market-exposure": 4000, "rule_exclusion": 3000}, "thorough": {"rule_selection-exposure": 400000}}
+MINIMA = {"quick": {"rule_selection-exposure": 8000, "rule_market-exposure": 4000, "rule_exclusion": 3000, "live_positions": 300}, "thorough": {"rule_selection-exposure": 400000}}
 ASSUMPTIONS = ["inputs of the brute force are the fields the exchange reports per bet (matched size, average matched price, remaining, limit, liability, status)", "tolerance 0.011 per selection (two 2-dp roundings)"]
 WEIGHTS = [("hostile", 3), ("plain", 2), ("deep", 2), ("multi", 1), ("lines", 1), ("recorded", 1)]
 
 
 def plan(tier, seed):
-    return _sim.plan_profiles(tier, seed, WEIGHTS, 3500, 60000)
+    cases = _sim.plan_profiles(tier, seed, WEIGHTS, 3500, 60000)
+    return cases + [{"mode": "live", "seed": seed, "idx": i} for i in range(600 if tier == "quick" else 10000)]
 
 
 def build_line(desc):
@@ -80,7 +81,71 @@ def build(desc):
     return case, snaps
 
 
+def run_live(desc):
+    """Live orders: sizes, average prices and statuses come from the exchange (order stream); a bet filled over several price levels
+    has an average price with more than two decimals.  Expected figures are brute-forced from the exchange's own bet table."""
+    from .. import livecases
+    from . import c11
+
+    rng = simgen.mk_rng(desc["seed"], desc["idx"], 163)
+    out = O.Out(PROPERTY)
+    st = livecases.make_strategy("X0")
+    tr, w = livecases.new_world([st])
+    try:
+        mid = w.add_market_file(livecases.static_market())
+        w.next_book(mid)
+        m = w.market(mid)
+        ex = w.exchange
+        for j in range(rng.randint(1, 5)):
+            sel, hc = rng.choice(((701, 0), (702, 0), (703, 0), (704, -1.5)))
+            otype = rng.choice(("LIMIT",) * 6 + ("LOC", "MOC"))
+            o = livecases.make_order(st, mid, sel=sel, handicap=hc, side=rng.choice(("BACK", "LAY")), price=rng.choice((2.0, 3.2, 5.5, 12.0)), size=rng.choice((2.0, 37.5, 100.0, 240.0, 300.0)), otype=otype, liability=rng.choice((5.0, 40.0)))
+            m.place_order(o)
+            w.executor.run_all()
+            b = next((b_ for b_ in ex.bets.values() if b_["customerOrderRef"] == o.customer_order_ref), None)
+            if b is None or otype != "LIMIT":
+                continue
+            # taken over several levels at prices at or better than the limit
+            for _ in range(rng.randint(0, 3)):
+                step = rng.choice((0.0, 0.05, 0.1, 0.15, 0.35))
+                px = round(b["priceSize"]["price"] + (step if b["side"] == "BACK" else -step), 2)
+                if px > 1.01:
+                    ex.fill(b["betId"], round(b["priceSize"]["size"] * rng.choice((0.1, 0.25, 1 / 3, 0.4)), 2), price=px)
+            if rng.random() < 0.2 and b["sizeRemaining"] > 0:
+                ex.lapse(b["betId"])
+        w.snapshot()
+        mb = m.market_book
+        by_sel = {}
+        for b in ex.bets.values():
+            by_sel.setdefault((b["selectionId"], b["handicap"]), []).append(c11.bet_view(b))
+        per = {}
+        for sel, views in by_sel.items():
+            w_, l_ = O.selection_wpp(views)
+            per[sel] = (w_, l_)
+            got = m.blotter.get_exposures(st, (mid, sel[0], sel[1]))
+            out.rule("selection-exposure")
+            frac = any(v["matched"] and abs(v["avg"] * 100 - round(v["avg"] * 100)) > 1e-6 for v in views)
+            out.d("c16live:%d:%s:%s" % (min(len(views), 4), "".join(sorted({v["otype"][0] + v["side"][0] for v in views})), frac))
+            if abs(got["worst_possible_profit_on_win"] - w_) > 0.011 or abs(got["worst_possible_profit_on_lose"] - l_) > 0.011:
+                out.v("selection-exposure-differs", {"types": "".join(sorted({v["otype"][0] for v in views})), "live": True, "fractional_average": frac}, views=views, got=got, expected=(w_, l_))
+            se = m.blotter.selection_exposure(st, (mid, sel[0], sel[1]))
+            if abs(se - max(0.0, -min(w_, l_))) > 0.011:
+                out.v("selection-exposure-figure-differs", {"live": True}, views=views, got=se, expected=max(0.0, -min(w_, l_)))
+        if per and mb is not None and mb.number_of_winners is not None:
+            out.rule("market-exposure")
+            expm = O.market_worst_case(per, mb.number_of_winners, mb.number_of_active_runners)
+            gotm = m.blotter.market_exposure(st, mb)
+            if abs(gotm - expm) > 0.011 * max(1, len(per)):
+                out.v("market-exposure-differs", {"winners": mb.number_of_winners, "live": True}, got=gotm, expected=expm, per={str(k): v for k, v in per.items()})
+        out.c("live_positions")
+    finally:
+        livecases.finish(w)
+    return out.result()
+
+
 def run(desc):
+    if desc.get("mode") == "live":
+        return run_live(desc)
     case, snaps = build(desc)
     tr = simrun.run_case(case, observers=[observers.exposures])
     out = O.Out(PROPERTY)
